@@ -112,6 +112,19 @@ Theorem C20_caseless_cut : forall s t, wf s -> wf t -> caseless121 s -> caseless
 Proof. exact (caseless_cut fold121). Qed.
 Print Assumptions C20_caseless_count.
 
+(* the character searches of the caseless class: IndexRune is the byte-level search for the
+   encoding; IndexAny / LastIndexAny do not depend on folding at all *)
+Theorem C20_caseless_index_rune : forall s, wf s -> caseless121 s -> forall r, valid_rune r = true -> fold121 r = r ->
+  index_rune fold121 s r = std_index s (encode r).
+Proof. exact (caseless_index_rune fold121). Qed.
+Print Assumptions C20_caseless_index_rune.
+Theorem C20_caseless_index_any : forall s chars, caseless121 s -> caseless121 chars ->
+  index_any fold121 s chars = index_any (fun x => x) s chars.
+Proof. exact (caseless_index_any fold121). Qed.
+Theorem C20_caseless_last_index_any : forall s chars, caseless121 s -> caseless121 chars ->
+  last_index_any fold121 s chars = last_index_any (fun x => x) s chars.
+Proof. exact (caseless_last_index_any fold121). Qed.
+
 (* non-vacuity: "世1😀" and "1😀" are caseless *)
 Example C20_caseless_example :
   caseless121 [228; 184; 150; 49; 240; 159; 152; 128] /\ caseless121 [49; 240; 159; 152; 128] /\
